@@ -251,10 +251,16 @@ type NXActionConnTrack struct {
 }
 
 func (a *NXActionConnTrack) Len() (n uint16) {
-	return a.Length
+	// computed from the nested actions, which may grow after AddAction
+	n = a.NXActionHeader.Len() + 14
+	for _, action := range a.actions {
+		n += action.Len()
+	}
+	return
 }
 
 func (a *NXActionConnTrack) MarshalBinary() (data []byte, err error) {
+	a.Length = a.Len()
 	data = make([]byte, int(a.Length))
 	var b []byte
 	n := 0
@@ -307,7 +313,7 @@ func (a *NXActionConnTrack) UnmarshalBinary(data []byte) error {
 	a.Alg = binary.BigEndian.Uint16(data[n:])
 	n += 2
 
-	for n < int(a.Len()) {
+	for n < int(a.Length) {
 		act, err := DecodeAction(data[n:])
 		if err != nil {
 			return errors.New("failed to decode actions")
